@@ -3184,7 +3184,19 @@ func (p *Posix) DeleteObject(ctx context.Context, input *s3.DeleteObjectInput) (
 					}, nil
 				}
 
-				srcObjVersion, err := ents[len(ents)-1].Info()
+				// The entries are sorted by name: version ids sort by age,
+				// but "null" sorts after all of them whatever its age. The
+				// null version is the predecessor only if it is newer than
+				// the newest id version (same rule as the versions listing).
+				srcEnt := ents[len(ents)-1]
+				if srcEnt.Name() == nullVersionId && len(ents) > 1 {
+					nullInfo, nerr := srcEnt.Info()
+					idInfo, ierr := ents[len(ents)-2].Info()
+					if nerr == nil && ierr == nil && !nullInfo.ModTime().After(idInfo.ModTime()) {
+						srcEnt = ents[len(ents)-2]
+					}
+				}
+				srcObjVersion, err := srcEnt.Info()
 				if err != nil {
 					return nil, fmt.Errorf("get file info: %w", err)
 				}
